@@ -550,20 +550,65 @@ type c30Job struct {
 	start  int   // first global index
 	n      int   // number of cases
 	rowOff []int // pairs: offset of row a
+	crash  []bool
 }
 
 type c30Env struct {
 	seeds []c30Seed
 	jobs  []*c30Job
 	nSDP  int
-	cands []c30Case
-	total int
+	cands  []c30Case // generated on first use (a restarted worker beyond them never needs them)
+	nCands int
+	// nSingles: candidate cases + single-deviation cases (phase 1); the pair cases follow (phase 2)
+	nSingles int
+	total    int
+	// skip: deviations that crashed the process as single deviations, per seed|sem|mode; pairs
+	// containing one of them are not executed (every such pair would restart a worker)
+	skip map[string][]c30Dev
+
+	seedByName map[string]*c30Seed
+}
+
+func c30SkipKey(seed string, sem int, mode string) string {
+	return seed + "|" + strconv.Itoa(sem) + "|" + mode
+}
+
+// skipPair reports whether global index i is a pair case containing a deviation that already
+// crashed the process on its own.
+func (e *c30Env) skipPair(i int) bool {
+	if i < e.nSingles || len(e.skip) == 0 {
+		return false
+	}
+	i -= e.nCands
+	k := sort.Search(len(e.jobs), func(k int) bool { return e.jobs[k].start+e.jobs[k].n > i })
+	j := e.jobs[k]
+	if !j.pairs {
+		return false
+	}
+	if j.crash == nil {
+		j.crash = make([]bool, len(j.devs))
+		for _, d := range e.skip[c30SkipKey(j.seed.Name, j.sem, j.mode)] {
+			for x := range j.devs {
+				if j.devs[x] == d {
+					j.crash[x] = true
+				}
+			}
+		}
+	}
+	i -= j.start
+	a := sort.Search(len(j.devs), func(a int) bool { return j.rowOff[a+1] > i })
+	b := a + 1 + (i - j.rowOff[a])
+
+	return j.crash[a] || j.crash[b]
 }
 
 var c30Modes = []string{"queue", "seam"}
 
-func c30BuildEnv(seeds []c30Seed, thorough bool) *c30Env {
-	e := &c30Env{seeds: seeds}
+func c30BuildEnv(seeds []c30Seed, thorough bool, nCands int) *c30Env {
+	e := &c30Env{seeds: seeds, seedByName: map[string]*c30Seed{}}
+	for si := range seeds {
+		e.seedByName[seeds[si].Name] = &seeds[si]
+	}
 	add := func(j *c30Job) {
 		j.start = e.nSDP
 		if j.pairs {
@@ -589,6 +634,7 @@ func c30BuildEnv(seeds []c30Seed, thorough bool) *c30Env {
 			}
 		}
 	}
+	e.nSingles = e.nSDP
 	if thorough {
 		// all pairs of deviations (without the token operators) of the four smallest seeds; pairs of
 		// the structural deviations (delete a line, delete / rename a family) of the other seeds,
@@ -621,18 +667,37 @@ func c30BuildEnv(seeds []c30Seed, thorough bool) *c30Env {
 			}
 		}
 	}
-	e.cands = c30CandCases()
-	e.total = e.nSDP + len(e.cands)
+	if nCands < 0 {
+		e.cands = c30CandCases()
+		nCands = len(e.cands)
+	}
+	e.nCands = nCands
+	e.nSingles += nCands
+	e.total = e.nSDP + nCands
 
 	return e
 }
 
 // caseAt decodes global index i. Candidate cases come first (they are cheap).
 func (e *c30Env) caseAt(i int) c30Case {
-	if i < len(e.cands) {
+	cs := e.caseMeta(i)
+	if cs.Part == "sdp" {
+		cs.SDP = c30ApplyAll(c30Lines(e.seedByName[cs.Seed].SDP), cs.Devs)
+	}
+
+	return cs
+}
+
+// caseMeta is caseAt without the mutated text.
+func (e *c30Env) caseMeta(i int) c30Case {
+	if i < e.nCands {
+		if e.cands == nil {
+			e.cands = c30CandCases()
+		}
+
 		return e.cands[i]
 	}
-	i -= len(e.cands)
+	i -= e.nCands
 	k := sort.Search(len(e.jobs), func(k int) bool { return e.jobs[k].start+e.jobs[k].n > i })
 	j := e.jobs[k]
 	i -= j.start
@@ -649,7 +714,6 @@ func (e *c30Env) caseAt(i int) c30Case {
 		cs.Devs = []c30Dev{j.devs[i]}
 		cs.Op, cs.Kind = c30DevFamily(j.lines, j.devs[i])
 	}
-	cs.SDP = c30ApplyAll(j.lines, cs.Devs)
 
 	return cs
 }
@@ -732,7 +796,7 @@ func c30CandString(vals []string) string {
 // connection in have-remote-offer and in stable.
 func c30CandCases() []c30Case {
 	fields := c30CandFields()
-	var out []c30Case
+	out := make([]c30Case, 0, 20000)
 	states := []string{"have-remote-offer", "stable"}
 	emit := func(s, op, kind string) {
 		for _, st := range states {
@@ -914,6 +978,9 @@ func c30Quiesce() bool {
 		if !busy {
 			return true
 		}
+		if k > 2 {
+			time.Sleep(50 * time.Microsecond) // let the other P run what is runnable
+		}
 		if k == 399 && os.Getenv("VERIF_C30_DEBUG") != "" {
 			fmt.Fprintf(os.Stderr, "C30-NOT-QUIESCENT\n%s\n", buf[:n])
 		}
@@ -1087,17 +1154,22 @@ func c30CaseGuard() time.Duration {
 	return 60 * time.Second
 }
 
-func c30LoadSeeds(tb testing.TB, dir string) []c30Seed {
+type c30SeedFile struct {
+	Seeds  []c30Seed `json:"seeds"`
+	NCands int       `json:"ncands"`
+}
+
+func c30LoadSeeds(tb testing.TB, dir string) c30SeedFile {
 	raw, err := os.ReadFile(filepath.Join(dir, "seeds.json"))
 	if err != nil {
 		vkit.Fatalf(tb, "worker: %v", err)
 	}
-	var seeds []c30Seed
-	if err = json.Unmarshal(raw, &seeds); err != nil {
+	var sf c30SeedFile
+	if err = json.Unmarshal(raw, &sf); err != nil {
 		vkit.Fatalf(tb, "worker: %v", err)
 	}
 
-	return seeds
+	return sf
 }
 
 func c30Worker(t *testing.T, spec string) {
@@ -1174,14 +1246,26 @@ func c30Worker(t *testing.T, spec string) {
 
 		return
 	}
-	var w, nw, from int
-	if _, err = fmt.Sscanf(spec, "%d/%d/%d", &w, &nw, &from); err != nil || nw <= 0 {
+	var w, nw, from, hi int
+	if _, err = fmt.Sscanf(spec, "%d/%d/%d/%d", &w, &nw, &from, &hi); err != nil || nw <= 0 {
 		vkit.Fatalf(t, "worker spec %q", spec)
 	}
 	stop, _ := strconv.ParseInt(os.Getenv(c30EnvStop), 10, 64)
-	env := c30BuildEnv(c30LoadSeeds(t, dir), os.Getenv("VERIF_TIER") == "thorough")
-	for i := from; i < env.total; i++ {
+	sf := c30LoadSeeds(t, dir)
+	env := c30BuildEnv(sf.Seeds, os.Getenv("VERIF_TIER") == "thorough", sf.NCands)
+	if raw, rerr := os.ReadFile(filepath.Join(dir, "skip.json")); rerr == nil {
+		_ = json.Unmarshal(raw, &env.skip)
+	}
+	if hi > env.total {
+		hi = env.total
+	}
+	for i := from; i < hi; i++ {
 		if i%nw != w {
+			continue
+		}
+		if env.skipPair(i) {
+			logw("E %d skipped", i)
+
 			continue
 		}
 		if stop > 0 && time.Now().Unix() >= stop {
@@ -1289,7 +1373,7 @@ func (p *c30Parent) runWorker(spec, tag string, maxWait time.Duration, extraEnv 
 	}
 	cmd := exec.Command(os.Args[0], "-test.run", "^TestVerifC30$", "-test.timeout", "0", "-test.count", "1") //nolint:gosec
 	cmd.Env = append(os.Environ(), c30EnvWorker+"="+spec, c30EnvDir+"="+p.dir, c30EnvLog+"="+logPath,
-		c30EnvStop+"="+strconv.FormatInt(p.stop, 10), "GOMAXPROCS=1", "GOGC=400", "GOTRACEBACK=single", "VERIF_REPLAY=")
+		c30EnvStop+"="+strconv.FormatInt(p.stop, 10), "GOMAXPROCS=2", "GOGC=400", "GOTRACEBACK=single", "VERIF_REPLAY=")
 	cmd.Env = append(cmd.Env, extraEnv...)
 	cmd.Stdout = errf
 	cmd.Stderr = errf
@@ -1372,16 +1456,16 @@ type c30Result struct {
 }
 
 // runBatch drives worker w over its share of the cases, restarting it after crashes.
-func (p *c30Parent) runBatch(w, nw int, results chan<- c30Result, crashes chan<- c30Crash, stopped *bool) {
-	from := 0
+func (p *c30Parent) runBatch(w, nw, lo, hi int, tag string, results chan<- c30Result, crashes chan<- c30Crash, stopped *bool) {
+	from := lo
 	maxWait := time.Until(time.Unix(p.stop, 0)) + c30CaseGuard() + 120*time.Second
 	for launch := 0; ; launch++ {
-		if launch > 200 {
-			p.setFail("worker %d restarted more than 200 times", w)
+		if launch > 2000 {
+			p.setFail("worker %d restarted more than 2000 times", w)
 
 			return
 		}
-		r := p.runWorker(fmt.Sprintf("%d/%d/%d", w, nw, from), fmt.Sprintf("w%02d-%03d", w, launch), maxWait)
+		r := p.runWorker(fmt.Sprintf("%d/%d/%d/%d", w, nw, from, hi), fmt.Sprintf("%s%02d-%04d", tag, w, launch), maxWait)
 		open := -1
 		done := false
 		for _, l := range r.log {
@@ -1454,6 +1538,11 @@ func c30Key(kind string, site string, cs c30Case) string {
 
 func (p *c30Parent) account(cs c30Case, outcome string) {
 	c := p.c
+	if outcome == "skipped" {
+		c.Add("pairs_not_executed_containing_a_process_killing_single_deviation", 1)
+
+		return
+	}
 	c.Eval()
 	if strings.HasPrefix(outcome, "PANIC ") {
 		f := strings.SplitN(outcome, " ", 3)
@@ -1558,12 +1647,12 @@ func TestVerifC30(t *testing.T) { //nolint:cyclop
 	}
 
 	seeds := c30MakeSeeds(t)
-	raw, _ := json.Marshal(seeds)
+	thorough := !c.Quick()
+	p.env = c30BuildEnv(seeds, thorough, -1)
+	raw, _ := json.Marshal(c30SeedFile{Seeds: seeds, NCands: p.env.nCands})
 	if err = os.WriteFile(filepath.Join(dir, "seeds.json"), raw, 0o644); err != nil {
 		vkit.Fatalf(t, "seeds: %v", err)
 	}
-	thorough := !c.Quick()
-	p.env = c30BuildEnv(seeds, thorough)
 	budget := time.Duration(c.Pick(45, 780)) * time.Second
 	p.stop = c.Deadline(budget).Unix()
 	seedInfo := map[string]int{}
@@ -1574,55 +1663,77 @@ func TestVerifC30(t *testing.T) { //nolint:cyclop
 	c.Set("nasty_values", c30NastyNames)
 	c.Set("families", c30Families)
 	c.Set("cases_planned", p.env.total)
-	c.Set("candidate_cases_planned", len(p.env.cands))
+	c.Set("candidate_cases_planned", p.env.nCands)
 	c.Set("schedules_enumerated", false)
 	c.Assume("the deviations are applied to seeds; texts three or more deviations away from every seed are not reached")
 	c.Assume("background goroutines run under the natural schedule of the Go runtime inside each worker")
 
 	nw := vkit.Workers()
-	results := make(chan c30Result, 4096)
-	crashes := make(chan c30Crash, 256)
 	stopped := false
-	var wg sync.WaitGroup
-	for w := 0; w < nw; w++ {
-		wg.Add(1)
-		go func(w int) {
-			defer wg.Done()
-			p.runBatch(w, nw, results, crashes, &stopped)
-		}(w)
-	}
-	// the RTP part runs next to the batches, in its own worker
-	var rtpRes c30Run
-	wg.Add(1)
-	go func() {
-		defer wg.Done()
-		rtpRes = p.runWorker("rtp", "rtp", 240*time.Second, "GOMAXPROCS=4")
-	}()
-	go func() {
-		wg.Wait()
-		close(results)
-		close(crashes)
-	}()
 	var crashList []c30Crash
 	var resList []c30Result
-	for results != nil || crashes != nil {
-		select {
-		case r, ok := <-results:
-			if !ok {
-				results = nil
+	// the RTP part runs next to the batches, in its own worker
+	var rtpRes c30Run
+	var rtpWG sync.WaitGroup
+	rtpWG.Add(1)
+	go func() {
+		defer rtpWG.Done()
+		rtpRes = p.runWorker("rtp", "rtp", 240*time.Second, "GOMAXPROCS=4")
+	}()
+	runPhase := func(lo, hi int, tag string) {
+		results := make(chan c30Result, 4096)
+		crashes := make(chan c30Crash, 256)
+		var wg sync.WaitGroup
+		for w := 0; w < nw; w++ {
+			wg.Add(1)
+			go func(w int) {
+				defer wg.Done()
+				p.runBatch(w, nw, lo, hi, tag, results, crashes, &stopped)
+			}(w)
+		}
+		go func() {
+			wg.Wait()
+			close(results)
+			close(crashes)
+		}()
+		for results != nil || crashes != nil {
+			select {
+			case r, ok := <-results:
+				if !ok {
+					results = nil
 
-				continue
-			}
-			resList = append(resList, r)
-		case cr, ok := <-crashes:
-			if !ok {
-				crashes = nil
+					continue
+				}
+				resList = append(resList, r)
+			case cr, ok := <-crashes:
+				if !ok {
+					crashes = nil
 
-				continue
+					continue
+				}
+				crashList = append(crashList, cr)
 			}
-			crashList = append(crashList, cr)
 		}
 	}
+	// phase 1: candidates and single deviations
+	runPhase(0, p.env.nSingles, "s")
+	if p.fail == "" && p.env.total > p.env.nSingles {
+		// phase 2: pairs; a pair containing a deviation that killed the process on its own is skipped
+		skip := map[string][]c30Dev{}
+		for _, cr := range crashList {
+			cs := p.env.caseMeta(cr.idx)
+			if cs.Part == "sdp" && len(cs.Devs) == 1 {
+				k := c30SkipKey(cs.Seed, cs.Sem, cs.Mode)
+				skip[k] = append(skip[k], cs.Devs[0])
+			}
+		}
+		sraw, _ := json.Marshal(skip)
+		if err = os.WriteFile(filepath.Join(dir, "skip.json"), sraw, 0o644); err != nil {
+			vkit.Fatalf(t, "skip file: %v", err)
+		}
+		runPhase(p.env.nSingles, p.env.total, "p")
+	}
+	rtpWG.Wait()
 	if p.fail != "" {
 		vkit.Fatalf(t, "%s", p.fail)
 	}
@@ -1630,7 +1741,10 @@ func TestVerifC30(t *testing.T) { //nolint:cyclop
 	sort.Slice(crashList, func(i, j int) bool { return crashList[i].idx < crashList[j].idx })
 	samples := 0
 	for _, r := range resList {
-		cs := p.env.caseAt(r.idx)
+		cs := p.env.caseMeta(r.idx)
+		if strings.HasPrefix(r.outcome, "PANIC ") {
+			cs = p.env.caseAt(r.idx)
+		}
 		p.account(cs, r.outcome)
 		if cs.Part == "sdp" && samples < 3 && r.idx%977 == 0 {
 			samples++
